@@ -384,6 +384,32 @@ func TestC03Returns(t *testing.T) {
 			x.Apply(op)
 			hist = append(hist, op.String())
 		}
+		// registry churn before the Sends: pipelines removed (once, twice), registered again, overwritten - whatever
+		// the registry remembers about them, every later Send must return and leave nothing behind
+		for i, n := 0, rapid.IntRange(0, 3).Draw(t, "churn"); i < n; i++ {
+			ps := x.PipesOf("A")
+			if len(ps) == 0 {
+				break
+			}
+			p := ps[rapid.IntRange(0, len(ps)-1).Draw(t, "churnWhich")]
+			def := model.Op{K: "regpipe", ET: "A", P: string(p.Key.P), IDs: append([]string(nil), p.IDs...)}
+			rm := model.Op{K: "rmpipe", ET: "A", P: string(p.Key.P)}
+			var seq []model.Op
+			switch rapid.IntRange(0, 3).Draw(t, "churnKind") {
+			case 0:
+				seq = []model.Op{rm, def}
+			case 1:
+				seq = []model.Op{rm, rm, def}
+			case 2:
+				seq = []model.Op{def}
+			default:
+				seq = []model.Op{rm, rm}
+			}
+			for _, op := range seq {
+				x.Apply(op)
+				hist = append(hist, op.String())
+			}
+		}
 		usedSet := map[string]bool{}
 		for _, p := range x.PipesOf("A") {
 			for _, id := range p.IDs {
